@@ -162,6 +162,7 @@ func runC13(c *Ctx) {
 	c.c13OperandsLeftAlone()
 	c.c13QueueDrainedBeforeTheSinkCloses()
 	c.c13OnlyTheLoneLineBreakIsSkipped()
+	c.c13EveryStreamIsClosed()
 }
 
 // c13Formats: "delivered intact". A message that travels through the format-string position of a printf-like
@@ -1410,5 +1411,79 @@ func (c *Ctx) c13OnlyTheLoneLineBreakIsSkipped() {
 	}
 	if n == 0 {
 		c.info("L16", "logs/no-skipping-logger", "-", "no Log / LogError method returns without handing its message on")
+	}
+}
+
+// c13EveryStreamIsClosed (L17): "the ring-buffered asynchronous logger drops messages only when it also reports how many".
+// Closing a ring-buffered writer is what hands the messages still queued to its sink. A logger that keeps one such writer
+// per stream (fields of one type: the output and the error writer) closes every one of them on every path of its Close —
+// a failure to close one stream (a sink that complains about a second close) is no reason to leave the other's queue where
+// it is: those messages are neither delivered nor reported, and the polling goroutine stays behind.
+func (c *Ctx) c13EveryStreamIsClosed() {
+	c.rule("L17", "a Close method of the logging packages that closes several members of one type (the writers of the output and of the error stream) closes each of them on every path to every return: the failure of one close does not skip the next", 1)
+	for _, rel := range []string{"logs", "logs/logrimp"} {
+		for _, f := range c.srcFuncs(rel) {
+			if f.Name() != "Close" || f.Signature.Recv() == nil || f.Blocks == nil {
+				continue
+			}
+			// invoke Close on fields of the receiver, grouped by the field's type
+			type site struct {
+				call  *ssa.Call
+				field string
+			}
+			byType := map[string][]site{}
+			allInstrs(f, func(in ssa.Instruction) {
+				cl, ok := in.(*ssa.Call)
+				if !ok || !cl.Call.IsInvoke() || cl.Call.Method.Name() != "Close" {
+					return
+				}
+				u, ok := cl.Call.Value.(*ssa.UnOp)
+				if !ok {
+					return
+				}
+				fa, ok := u.X.(*ssa.FieldAddr)
+				if !ok || len(f.Params) == 0 || resolveValue(fa.X) != ssa.Value(f.Params[0]) {
+					return
+				}
+				so := structOf(fa.X.Type())
+				if so == nil {
+					return
+				}
+				t := so.Field(fa.Field).Type().String()
+				byType[t] = append(byType[t], site{cl, so.Field(fa.Field).Name()})
+			})
+			for _, sites := range byType {
+				fields := map[string]bool{}
+				for _, s := range sites {
+					fields[s.field] = true
+				}
+				if len(fields) < 2 {
+					continue
+				}
+				c.FuncsSeen[fname(f)] = true
+				bad := ""
+				for _, s := range sites {
+					s := s
+					// every path from the entry to a return passes a close of this field
+					esc := pathPruned(f, nil, func(i ssa.Instruction) bool {
+						cl, ok := i.(*ssa.Call)
+						if !ok {
+							return false
+						}
+						for _, o := range sites {
+							if o.field == s.field && o.call == cl {
+								return true
+							}
+						}
+						return false
+					}, func(i ssa.Instruction) bool { _, isRet := i.(*ssa.Return); return isRet }, nil)
+					if esc != nil {
+						bad = "the return at " + c.ipos(esc) + " can be reached without " + s.field + ".Close()"
+					}
+				}
+				c.check(bad == "", "L17", fname(f)+"/every-stream-is-closed", c.pos(f.Pos()), "every member of the same kind is closed on every path",
+					bad+": when closing one stream fails (a sink that complains about being closed twice, a flush that fails) the ring of the other stream is never closed, and closing is what hands the queued messages to the sink — they are neither delivered nor reported as dropped, and its polling goroutine is left behind")
+			}
+		}
 	}
 }
